@@ -685,7 +685,11 @@ class InProtocolBase(ProtocolMixin):
                 if isinstance(string, six.text_type):
                     string = string.encode('utf8')
 
-            retval = datetime.strptime(string, dt_format)
+            try:
+                retval = datetime.strptime(string, dt_format)
+            except ValueError as e:
+                # the message from ValueError is quite nice already
+                raise ValidationError(str(e), "%s")
 
             astz = cls_attrs.as_timezone
             if astz:
